@@ -186,7 +186,8 @@ class CsrEnv:
         if re.match(r"^X509CertificationRequest::<'_>::verify_signature$", c):
             ok = z3.Bool("verify_ok")
             st.events.append(("verify_signature", path_of(args[0]), ok))
-            return result(ok, UNIT, "verify")
+            # the error is an arbitrary X509Error: an enum with an arbitrary discriminant (code that inspects it forks on it)
+            return one(Opaque("result", (ok, UNIT, Opaque("enum", (z3.Int("verify_error_kind"), None)))))
         if re.match(r"^Oid::<'_>::iter$", c):
             return one(Opt(z3.Bool("oid_arcs_fit_u64"), Opaque("oid-arcs", path_of(args[0]))))
         if re.match(r"^Option::<.*>::ok_or::<", c):
@@ -233,8 +234,28 @@ class CsrEnv:
                 return one(Opt(z3.BoolVal(False), None))
             cell.v = Opaque("ext-iter", k + 1)
             return one(Opt(z3.Bool(f"ext{k}_present"), Ref(Cell(self.ext(k)))))
-        if re.match(r"^core::num::<impl u16>::reverse_bits$", c):
-            return one(Z(reverse16(args[0].e)))
+        m = re.match(r"^core::num::<impl u(8|16|32)>::reverse_bits$", c)
+        if m:
+            x, w = args[0].e, int(m.group(1))
+            if not (z3.is_bv(x) and x.size() == w):
+                raise Unsupported(f"reverse_bits::<u{w}> on a term of another width")
+            return one(Z(z3.Concat(*[z3.Extract(i, i, x) for i in range(w)])))
+        m = re.match(r"^core::num::<impl u16>::from_(be|le)_bytes$", c)
+        if m:
+            arr = deref(args[0])
+            if not (isinstance(arr, Agg) and len(arr.fields) == 2):
+                raise Unsupported("from_be_bytes on " + type(arr).__name__)
+            bs = []
+            for f in arr.fields:
+                e = deref(f.v).e
+                bs.append(z3.BitVecVal(e.as_long(), 8) if z3.is_int_value(e) else e)
+            if not all(z3.is_bv(b) and b.size() == 8 for b in bs):
+                raise Unsupported("from_be_bytes on non-byte terms")
+            return one(Z(z3.Concat(bs[0], bs[1]) if m.group(1) == "be" else z3.Concat(bs[1], bs[0])))
+        m = re.match(r"^core::num::<impl u16>::(swap_bytes|to_be|to_le|from_be|from_le)$", c)
+        if m and z3.is_bv(args[0].e) and args[0].e.size() == 16:
+            x = args[0].e
+            return one(Z(x if m.group(1) in ("to_le", "from_le") else z3.Concat(z3.Extract(7, 0, x), z3.Extract(15, 8, x))))
         if re.match(r"^KeyUsagePurpose::from_u16$", c):
             return one(Opaque("ku-from-u16", args[0].e))
         if re.match(r"^SanType::try_from_general$", c):
@@ -478,4 +499,99 @@ def ob_csr_accept(fns):
     ob.result = "pass"
     ob.bound_text = (f"<= {MAX_EXT} requested extensions; SubjectAlternativeName extensions with 2 (first) / 1 (second) general names; scenarios: "
                      + "; ".join(f"{n}: {t}" for n, t, _ in SCENARIOS) + f"; {n_ok} Ok paths; foreign struct layout from {LAYOUT_SOURCE}")
+    return ob
+
+
+# ------------------------------------------------------------------------------------------ SubjectPublicKeyInfo::from_der: the algorithm match
+
+class SpkiEnv(CsrEnv):
+    def __call__(self, eng, callee, args, st):
+        c = callee
+
+        def one(v):
+            return [(st, v)]
+
+        if re.match(r"^(sign_algo::)?SignatureAlgorithm::write_oids_sign_alg$", c):
+            st.events.append(("key-algorithm-identifier-of", str(alg_term(args[0]))))
+            return one(UNIT)
+        if re.match(r"^<(x509_parser::prelude::)?AlgorithmIdentifier<'_> as FromDer<'_, X509Error>>::from_der$", c):
+            tup = Agg("tuple", [Cell(Opaque("rest", "aid")), Cell(Foreign("candidate", "AlgorithmIdentifier"))])
+            return one(Opaque("result", (z3.Bool("candidate_identifier_parses"), tup, Opaque("error", "parse"))))
+        if re.match(r"^core::slice::<impl \[u8\]>::is_empty$", c):
+            return one(Z(z3.Bool("candidate_identifier_has_no_trailing_bytes")))
+        m = re.match(r"^<(.*) as PartialEq(<.*>)?>::(eq|ne)$", c)
+        if m:
+            a, b = path_of(args[0]), path_of(args[1])
+            nm = "equal[" + " = ".join(sorted([a, b])) + "]"
+            st.events.append(("compare", a, b))
+            e = z3.Bool(nm)
+            return one(Z(z3.Not(e) if m.group(3) == "ne" else e))
+        if re.match(r"^Option::<.*>::is_(none|some)$", c):
+            o = deref(args[0])
+            if isinstance(o, Foreign):
+                e = z3.Bool("is_some[" + o.path + "]")
+                return one(Z(e if c.endswith("is_some") else z3.Not(e)))
+        return CsrEnv.__call__(self, eng, callee, args, st)
+
+
+def ob_spki_match(fns):
+    from dn import Obligation
+    ob = Obligation("spki_algorithm_match",
+                    "SubjectPublicKeyInfo::from_der (used by CSR acceptance and public key import): an algorithm is selected for a key only if the DER of "
+                    "that algorithm's key AlgorithmIdentifier parses without trailing bytes to a value equal - as a whole, parameters included - to the "
+                    "AlgorithmIdentifier of the parsed SubjectPublicKeyInfo, so that re-encoding the key reproduces the identifier byte for byte",
+                    ["SubjectPublicKeyInfo::from_der::{closure#1} (the `find` predicate)"])
+    cands = [f for f in fns if re.search(r"key_pair::<impl.*>::from_der::\{closure#1\}$", f.name) and f.ret == "bool"]
+    if len(cands) != 1:
+        raise Unsupported(f"predicate of SubjectPublicKeyInfo::from_der: {len(cands)} candidates")
+    f = cands[0]
+    models = Models(fns)
+    eng = Engine(fns, models)
+    env = SpkiEnv(models, "spki")
+    models.call = env
+    models.resolve = env.resolve
+    cand_alg = z3.Const("candidate_alg", AlgSort)
+    # the captured places (precise captures) are named by the closure's debug info: spki__algorithm -> request_spki.algorithm
+    caps = {}
+    for nm, place in f.debug.items():
+        mm = re.match(r"^\(\*\(\(\*_1\)\.(\d+): &(.*)\)\)$", place)
+        if mm:
+            ty = re.sub(r"<.*", "", mm.group(2)).split("::")[-1]
+            caps[int(mm.group(1))] = ("request_" + nm.replace("__", "."), ty)
+    if not caps or sorted(caps) != list(range(len(caps))):
+        raise Unsupported("captures of the predicate closure")
+    clo_env = Agg("closure", [Cell(Ref(Cell(Foreign(caps[i][0], caps[i][1])))) for i in range(len(caps))])
+    arg = Ref(Cell(Ref(Cell(Ref(Cell(alg_value(cand_alg, "table")))))))
+    n_true = 0
+    for (s2, ret) in eng.run_fn(f, [Ref(Cell(clo_env)), arg], State()):
+        ob.paths += 1
+        if not isinstance(ret, Z):
+            raise Unsupported("predicate result " + type(ret).__name__)
+        s2.pc.append(ret.e)
+        if not s2.feasible():
+            continue
+        n_true += 1
+        ob.reach = True
+        pc = s2.pc
+        label = f"spki-match/true-path-{n_true}"
+        if ("key-algorithm-identifier-of", str(cand_alg)) not in s2.events:
+            ob.result, ob.reason = "fail", "an algorithm is selected without encoding its key AlgorithmIdentifier for the comparison"
+            ob.cex = {"op": "csr-accept", "features": ["x509-parser"], "kind": "spki-match", "what": ob.reason}
+            return ob
+        whole = "equal[" + " = ".join(sorted(["candidate", "request_spki.algorithm"])) + "]"
+        for goal, what in ((z3.Bool("candidate_identifier_parses"), "parses"), (z3.Bool("candidate_identifier_has_no_trailing_bytes"), "has no trailing bytes"),
+                           (z3.Bool(whole), "equals the request's AlgorithmIdentifier as a whole (parameters included)")):
+            ok, mdl = _valid(ob, pc, goal, label + "/" + what[:12])
+            if not ok:
+                ob.result = "fail"
+                ob.reason = (f"an algorithm is selected for the key although nothing establishes that its AlgorithmIdentifier {what}: the issued "
+                             "SubjectPublicKeyInfo can then differ from the requested one (e.g. rsaEncryption without the NULL parameters)")
+                ob.cex = {"op": "csr-accept", "features": ["x509-parser"], "kind": "spki-match", "what": ob.reason}
+                return ob
+    if n_true == 0:
+        ob.result, ob.reason = "inconclusive", "the predicate never returns true (vacuous)"
+        return ob
+    ob.functions = sorted(eng.stats["functions"])
+    ob.result = "pass"
+    ob.bound_text = f"one arbitrary candidate algorithm against an arbitrary parsed AlgorithmIdentifier; {n_true} accepting paths"
     return ob
